@@ -233,13 +233,12 @@ Lemma run_prefix : forall i nw (items : list (res A)) c1 sched,
   = map_p snoc_log c1 (ParMap.run f log_yield (par_init i nw items ([] : list (res B))) sched).
 Proof. intros i nw items c1 sched. exact (run_sim f snoc_log c1 sched (par_init i nw items [])). Qed.
 
-Lemma map_auto_eq_seq_lem : forall (k : nat) (decide : bool) (nw : nat) (sched : list choice) (items : list (res A)),
+Lemma map_auto_log_rel_lem : forall (k : nat) (decide : bool) (nw : nat) (sched : list choice) (items : list (res A)),
   let m := map_auto_run f log_yield k decide nw sched items ([] : list (res B)) in
   ma_complete m = true ->
-  delivered_as_seq (fst (seq_map f log_yield 0 items [])) (ma_cst m).
+  log_rel (slog f 0 items) (ma_cst m).
 Proof.
-  intros k decide nw sched items m Hc. apply log_rel_delivered.
-  rewrite seq_map_slog. cbn [fst app].
+  intros k decide nw sched items m Hc.
   assert (Hsplit : slog f 0 items = slog f 0 (firstn k items) ++ slog f (length (firstn k items)) (skipn k items)).
   { rewrite <- (firstn_skipn k items) at 1. rewrite slog_app. reflexivity. }
   subst m. unfold map_auto_run in *. rewrite seq_map_slog in *. cbn [negb app] in *.
@@ -253,6 +252,15 @@ Proof.
       cbn [map_p col map_coll cst]. rewrite hfold_snoc_log. apply log_rel_app.
       rewrite complete_sim in Hc. apply (par_log_rel f k nw (x :: rest) sched Hc).
     + rewrite seq_map_slog. cbn [ma_cst]. apply log_rel_refl.
+Qed.
+
+Lemma map_auto_eq_seq_lem : forall (k : nat) (decide : bool) (nw : nat) (sched : list choice) (items : list (res A)),
+  let m := map_auto_run f log_yield k decide nw sched items ([] : list (res B)) in
+  ma_complete m = true ->
+  delivered_as_seq (fst (seq_map f log_yield 0 items [])) (ma_cst m).
+Proof.
+  intros k decide nw sched items m Hc. apply log_rel_delivered. rewrite seq_map_slog. cbn [fst app].
+  apply map_auto_log_rel_lem. exact Hc.
 Qed.
 End MapAuto.
 
@@ -413,3 +421,183 @@ Proof.
   - destruct (seq_map f log_yield k (x :: rest) c1). split; [exists []; reflexivity|intros s H; discriminate].
 Qed.
 End Progress.
+
+(* ---------------------------------------------------------------- MapAuto as a function: the canonical completion *)
+Section Drive.
+Context {A B : Type}.
+Variable f : nat -> A -> res B.
+Notation pstate := (pstate (A := A) (B := B) (C := list (res B))).
+Notation stepL := (ParMap.step f (@log_yield B)).
+Notation runL := (ParMap.run f (@log_yield B)).
+
+Lemma first_busy_none : forall (ws : list (option (nat * res B))) i, first_busy ws i = None -> forallb idle ws = true.
+Proof. induction ws as [|[r|] ws IH]; intros i H; cbn in *; [reflexivity|discriminate|apply (IH (S i) H)]. Qed.
+
+Lemma first_busy_some : forall (ws : list (option (nat * res B))) i w, first_busy ws i = Some w ->
+  i <= w /\ exists r, nth_error ws (w - i) = Some (Some r).
+Proof.
+  induction ws as [|[r|] ws IH]; intros i w H; cbn [first_busy] in H; [discriminate| |].
+  - injection H as <-. split; [lia|]. rewrite Nat.sub_diag. exists r. reflexivity.
+  - destruct (IH _ _ H) as (Hle & r & Hr). split; [lia|]. exists r.
+    replace (w - i) with (S (w - S i)) by lia. exact Hr.
+Qed.
+
+Lemma pick_enabled : forall s : pstate, good s -> complete s = false -> enabled s (pick s) = true.
+Proof.
+  intros s (Hal & Hnw) Hc. unfold complete in Hc. rewrite Hal in Hc. cbn [negb orb] in Hc. unfold pick.
+  destruct (first_busy (workers s) 0) as [w|] eqn:Hfb.
+  - destruct (first_busy_some _ _ _ Hfb) as (_ & r & Hr). rewrite Nat.sub_0_r in Hr. cbn [enabled]. rewrite Hr. exact Hal.
+  - pose proof (first_busy_none _ _ Hfb) as Hidle. rewrite Hidle, andb_true_r in Hc.
+    cbn [enabled]. rewrite Hc. cbn [negb andb]. destruct (src s); [reflexivity|].
+    rewrite (all_idle_nth _ 0 Hidle) by lia. reflexivity.
+Qed.
+
+Lemma drive_complete : forall n (s : pstate), measure s <= n -> good s -> complete (drive f log_yield n s) = true.
+Proof.
+  induction n as [|n IH]; intros s Hm Hg; cbn [drive].
+  - destruct (complete s) eqn:Hc; [reflexivity|]. pose proof (step_enabled f s _ (pick_enabled s Hg Hc)). lia.
+  - destruct (complete s) eqn:Hc; [exact Hc|]. pose proof (step_enabled f s _ (pick_enabled s Hg Hc)).
+    apply IH; [lia|apply good_step; exact Hg].
+Qed.
+
+Lemma drive_sched : forall n (s : pstate), exists sched, drive f log_yield n s = runL s sched.
+Proof.
+  induction n as [|n IH]; intro s; cbn [drive]; [exists []; reflexivity|].
+  destruct (complete s); [exists []; reflexivity|]. destruct (IH (stepL s (pick s))) as (sched & H).
+  exists (pick s :: sched). exact H.
+Qed.
+
+(* the function map_auto is map_auto_run under the given schedule extended by some completion, and that run is complete *)
+Lemma map_auto_as_run : forall k decide nw sched (items : list (res A)), 1 <= nw ->
+  exists sched', ma_complete (map_auto_run f log_yield k decide nw (sched ++ sched') items []) = true /\
+                 fst (map_auto f log_yield k decide nw sched items []) = ma_cst (map_auto_run f log_yield k decide nw (sched ++ sched') items []).
+Proof.
+  intros k decide nw sched items Hnw. unfold map_auto, map_auto_run.
+  destruct (seq_map f log_yield 0 (firstn k items) []) as [c1 go].
+  destruct (negb go); [exists []; split; reflexivity|].
+  destruct (skipn k items) as [|x rest]; [exists []; split; reflexivity|].
+  destruct decide.
+  - set (s := runL (par_init k nw (x :: rest) c1) sched).
+    assert (Hg : good s) by (apply good_run, par_init_good; exact Hnw).
+    destruct (drive_sched (measure s) s) as (sched' & Hd). exists sched'.
+    unfold ParMap.run in *. rewrite fold_left_app. fold s. cbn [ma_complete ma_cst fst]. rewrite <- Hd.
+    split; [apply drive_complete; [apply le_n|exact Hg]|reflexivity].
+  - destruct (seq_map f log_yield k (x :: rest) c1). exists []. split; reflexivity.
+Qed.
+
+Lemma map_auto_log_rel : forall k decide nw sched (items : list (res A)), 1 <= nw ->
+  log_rel (slog f 0 items) (fst (map_auto f log_yield k decide nw sched items [])).
+Proof.
+  intros k decide nw sched items Hnw. destruct (map_auto_as_run k decide nw sched items Hnw) as (sched' & Hc & ->).
+  exact (map_auto_log_rel_lem f k decide nw (sched ++ sched') items Hc).
+Qed.
+
+Lemma map_auto_delivered : forall k decide nw sched (items : list (res A)), 1 <= nw ->
+  delivered_as_seq (slog f 0 items) (fst (map_auto f log_yield k decide nw sched items [])).
+Proof. intros. apply log_rel_delivered, map_auto_log_rel. assumption. Qed.
+End Drive.
+
+(* the same for any never-stopping consumer g: it sees the fold of g over the log *)
+Section DriveSim.
+Context {A B C : Type}.
+Variable f : nat -> A -> res B.
+Variable g : C -> res B -> C.
+Variable c0 : C.
+
+Lemma drive_sim : forall n s, drive f (yg g) n (map_p g c0 s) = map_p g c0 (drive f log_yield n s).
+Proof.
+  induction n as [|n IH]; intro s; cbn [drive]; [reflexivity|]. rewrite complete_sim.
+  destruct (complete s); [reflexivity|]. change (pick (map_p g c0 s)) with (pick s). rewrite step_sim. apply IH.
+Qed.
+
+Lemma map_auto_sim : forall k decide nw sched (items : list (res A)),
+  fst (map_auto f (yg g) k decide nw sched items c0) = hfold g c0 (fst (map_auto f log_yield k decide nw sched items [])).
+Proof.
+  intros k decide nw sched items. unfold map_auto, map_auto_run.
+  change c0 with (hfold g c0 []) at 1. rewrite seq_map_sim. rewrite seq_map_slog. cbn [fst negb app].
+  destruct (skipn k items) as [|x rest]; [reflexivity|]. destruct decide.
+  - change (par_init k nw (x :: rest) (hfold g c0 (slog f 0 (firstn k items))))
+      with (map_p g c0 (par_init k nw (x :: rest) (slog f 0 (firstn k items)))).
+    rewrite run_sim. change (measure (map_p g c0 ?s)) with (measure s).
+    match goal with |- context [drive f (yg g) ?n (map_p g c0 ?s)] => rewrite (drive_sim n s) end. reflexivity.
+  - rewrite seq_map_sim, seq_map_slog. reflexivity.
+Qed.
+Lemma map_auto_run_sim : forall k decide nw sched (items : list (res A)),
+  ma_complete (map_auto_run f (yg g) k decide nw sched items c0) = ma_complete (map_auto_run f log_yield k decide nw sched items [])
+  /\ ma_cst (map_auto_run f (yg g) k decide nw sched items c0) = hfold g c0 (ma_cst (map_auto_run f log_yield k decide nw sched items [])).
+Proof.
+  intros k decide nw sched items. unfold map_auto_run.
+  pose proof (seq_map_sim f g c0 (firstn k items) 0 []) as H1. change (hfold g c0 []) with c0 in H1. rewrite H1.
+  rewrite seq_map_slog. cbn [fst negb app].
+  destruct (skipn k items) as [|x rest]; [split; reflexivity|]. destruct decide.
+  - change (par_init k nw (x :: rest) (hfold g c0 (slog f 0 (firstn k items))))
+      with (map_p g c0 (par_init k nw (x :: rest) (slog f 0 (firstn k items)))).
+    rewrite run_sim. split; reflexivity.
+  - rewrite seq_map_sim, seq_map_slog. split; reflexivity.
+Qed.
+End DriveSim.
+
+(* ---------------------------------------------------------------- FilterAuto *)
+Section Filter.
+Context {V : Type}.
+Variable accept : V -> res bool.
+
+Definition fpiece (r : res (V * bool)) : list (res V) :=
+  match r with ROk (x, true) => [ROk x] | ROk (_, false) => [] | RErr => [RErr] end.
+
+Lemma filter_fold : forall l acc, fold_left (@filter_step V) l acc = acc ++ flat_map fpiece l.
+Proof.
+  induction l as [|r l IH]; intro acc; cbn [fold_left flat_map]; [rewrite app_nil_r; reflexivity|].
+  rewrite IH. destruct r as [[x [|]]|]; cbn [filter_step fpiece app]; rewrite <- ?app_assoc; reflexivity.
+Qed.
+
+Lemma seq_filter_slog : forall (items : list (res V)) i, seq_filter accept items = flat_map fpiece (slog (filter_mapper accept) i items).
+Proof.
+  induction items as [|x items IH]; intro i; [reflexivity|].
+  unfold slog. cbn [length seq combine map flat_map]. fold (slog (filter_mapper accept) (S i) items). rewrite <- IH.
+  destruct x as [v|]; cbn [seq_filter work snd fst]; [|reflexivity].
+  unfold filter_mapper. destruct (accept v) as [[|]|]; reflexivity.
+Qed.
+
+Lemma noerr_pieces : forall l : list (res (V * bool)), noerr (flat_map fpiece l) = noerr l.
+Proof.
+  induction l as [|r l IH]; [reflexivity|]. cbn [flat_map]. unfold noerr in *. rewrite forallb_app, IH.
+  destruct r as [[x [|]]|]; reflexivity.
+Qed.
+
+Lemma ok_prefix_pieces : forall a b R, Forall2 (@le_res (V * bool)) a b ->
+  is_prefix (ok_prefix (flat_map fpiece b)) (ok_prefix (flat_map fpiece a ++ R)).
+Proof.
+  intros a b R H. induction H as [|x y a b Hxy _ IH]; [exists (ok_prefix R); reflexivity|].
+  destruct Hxy as [->| ->]; [|exists (ok_prefix (flat_map fpiece (x :: a) ++ R)); reflexivity].
+  destruct x as [[v [|]]|]; cbn [flat_map fpiece app ok_prefix]; [|exact IH|exists []; reflexivity].
+  destruct IH as (t & Ht). exists t. rewrite Ht. reflexivity.
+Qed.
+
+Lemma filter_delivered : forall Lseq Lpar : list (res (V * bool)), log_rel Lseq Lpar ->
+  delivered_as_seq (flat_map fpiece Lseq) (flat_map fpiece Lpar).
+Proof.
+  intros Lseq Lpar (Lf & Lr & -> & Hf & Hn). destruct (noerr Lf) eqn:E.
+  - destruct (Hn eq_refl) as (-> & ->). rewrite app_nil_r. repeat split; auto. exists []. rewrite app_nil_r. reflexivity.
+  - rewrite flat_map_app. split; [|split].
+    + rewrite (noerr_false_outcome (flat_map fpiece Lpar)) by (rewrite noerr_pieces; apply (le_noerr_false _ _ Hf E)).
+      rewrite outcome_app_none; [reflexivity|]. apply noerr_false_outcome. rewrite noerr_pieces. exact E.
+    + apply ok_prefix_pieces. exact Hf.
+    + unfold noerr. rewrite forallb_app. fold (noerr (flat_map fpiece Lf)). rewrite noerr_pieces, E. discriminate.
+Qed.
+
+(* FilterAuto = Filter: any k, any decision, any worker count, any complete schedule *)
+Lemma filter_auto_eq_seq_lem : forall (k : nat) (decide : bool) (nw : nat) (sched : list choice) (items : list (res V)),
+  let m := filter_auto_run accept k decide nw sched items in
+  ma_complete m = true ->
+  delivered_as_seq (seq_filter accept items) (ma_cst m).
+Proof.
+  intros k decide nw sched items m Hc. subst m. unfold filter_auto_run in *.
+  (* the filtering consumer is a fold over the log of the recording consumer *)
+  pose proof (map_auto_run_sim (filter_mapper accept) (@filter_step V) [] k decide nw sched items) as Hsim.
+  change (yg (@filter_step V)) with (@filter_yield V) in Hsim.
+  destruct Hsim as (Hc' & ->). rewrite Hc' in Hc.
+  unfold hfold. rewrite filter_fold. cbn [app]. rewrite (seq_filter_slog items 0).
+  apply filter_delivered. exact (map_auto_log_rel_lem (filter_mapper accept) k decide nw sched items Hc).
+Qed.
+End Filter.
